@@ -15,7 +15,6 @@ ASSUMPTIONS = ['credit received = initial n of the request frame (counted from i
 DECIDING_REQUIRED = ('elements_sent_checked', 'streams_with_late_credit', 'request_n_values_compared',
                      'streams_stalled_then_resumed')
 BUDGET_S = {'quick': 100, 'thorough': 1800}
-CASE_WALL_LIMIT = {'quick': 60, 'thorough': 180}
 MAXN = 0x7FFFFFFF
 
 SOURCES = ['gen', 'agen', 'rx4', 'rx4bp', 'rx3', 'rx3bp']
